@@ -29,7 +29,7 @@ RULE = (
     "(signed, zero)/f, order passed as int/np.int64/np.int32; real-grid = AtomGrid, MolGrid, UniformGrid 2-D/3-D, Tensor1DGrids, "
     "AngularGrid, PeriodicGrid, LocalGrid instances x types x orders; dipole = random molecules (1-5 atoms) on random/Mol/Uniform "
     "grids against sum Z(R-Rcm) - sum w rho (p-Rcm); generator = all types x orders 0..12 x dim; hostile = centre on a grid "
-    "point, points on / near the z axis, duplicate centres, huge dynamic range, integer-typed inputs, non-contiguous views. "
+    "point, points on / near (cone 0.05-0.3 rad) the z axis, narrow cones 1e-6..1e-2 rad (decided against the row envelope only, loss of digits recorded), duplicate centres, huge dynamic range, integer-typed inputs, non-contiguous views. "
     "A case is non-trivial when at least one monitored call returned and was compared."
 )
 ASSUMPTIONS = [
@@ -42,8 +42,8 @@ TECHNIQUE = "runtime monitoring: post-conditions on Grid.moments, generate_order
 
 TYPES = c14ref.TYPES
 REAL_GRIDS = ["atomgrid", "atomgrid-offcentre", "molgrid", "uniform3d", "uniform2d", "tensor3d", "tensor2d", "angular", "periodic", "localgrid", "grid-col1d"]
-HOSTILE = ["centre-on-point", "z-axis", "near-axis", "duplicate-centres", "dynamic-range", "integer-inputs", "views", "single-point", "zero-weights", "rejected-orders", "flat-centres"]
-_state = {"ctx": None}
+HOSTILE = ["centre-on-point", "z-axis", "near-axis", "narrow-cone", "duplicate-centres", "dynamic-range", "integer-inputs", "views", "single-point", "zero-weights", "rejected-orders", "flat-centres"]
+_state = {"ctx": None, "narrow": None}
 
 
 # ----------------------------------------------------------------------------- cases
@@ -163,6 +163,17 @@ def _post_moments(res, exc, args, kwargs):
     if not shape_ok:
         return
     if vals.size == 0:
+        return
+    if _state.get("narrow") is not None and t in ("pure", "pure-radial"):
+        # workload announced a cone narrower than 1e-2 rad about the polar axis: the arccos route of the library loses digits
+        # relative to the row (conditioning, recorded) - decided only against the envelope of the row
+        with np.errstate(all="ignore"):
+            diff = np.abs(vals.astype(np.longdouble) - S)
+            envrel = float(np.max(np.where(E > 0, diff / np.where(E > 0, E, 1), np.where(diff == 0, 0.0, np.inf))))
+            rowrel = float(np.max(np.where(A > 0, diff / np.where(A > 0, A, 1), 0.0)))
+        ctx.check("narrow-cone-within-envelope", subj, envrel if not np.isnan(np.asarray(vals, dtype=float)).any() else float("nan"), 1e-6, sig="envelope-relative", detail={"cone": _state["narrow"], "L": L})
+        if rowrel > TOL:
+            ctx.observe("pure moments in a narrow cone about the polar axis lose digits relative to the row (arccos polar angle)", cone=_state["narrow"], row_relative_error=rowrel, envelope_relative_error=envrel, type=t, L=L)
         return
     with np.errstate(all="ignore"):
         diff = np.abs(vals.astype(np.longdouble) - S)
@@ -552,10 +563,15 @@ def _hostile(ctx, params):
         pts[:, : dim - 1] = 0.0  # all points on the last axis through the origin
         c[:, : dim - 1] = 0.0
     elif what == "near-axis":
-        # a cone of opening 1e-3..1e-1 around the last axis as seen from the centre (polar-angle conditioning)
-        eps = 10.0 ** rng.uniform(-3, -1)
+        # a cone of opening 0.05..0.3 around the last axis as seen from the centre (polar-angle conditioning)
+        eps = 10.0 ** rng.uniform(-1.3, -0.5)
         pts[:, : dim - 1] *= eps
         c[:, : dim - 1] *= eps
+    elif what == "narrow-cone":
+        eps = 10.0 ** rng.uniform(-6, -2)
+        pts[:, : dim - 1] *= eps
+        c[:, : dim - 1] *= eps
+        _state["narrow"] = eps
     elif what == "duplicate-centres":
         c = np.repeat(c[:1], 3, axis=0)
     elif what == "dynamic-range":
@@ -595,4 +611,7 @@ def _hostile(ctx, params):
                 ctx.check("pure-radial-order-zero-rejected", "Grid.moments[pure-radial]", True)
         # and a regular call so that the case decides something
     g = Grid(np.ascontiguousarray(pts) if what != "views" else pts, w)
-    _call_moments(ctx, g, _order_arg(L, k), c, f, t, k + L)
+    try:
+        _call_moments(ctx, g, _order_arg(L, k), c, f, t, k + L)
+    finally:
+        _state["narrow"] = None
